@@ -3,7 +3,9 @@
    The state space is the set of (world, input, source) triples; there are no transitions.            *)
 EXTENDS Integers, Sequences, FiniteSets, TLC, Json
 CONSTANTS UrlSet, GenOn, GenN
-HostTab(u) == CASE u = "A/x" -> "A" [] u = "A/y" -> "A" [] u = "B/x" -> "B" [] u = "B/y" -> "B" [] u = "M/x" -> "M" [] u = "M/y" -> "M" [] OTHER -> "none"
+HostTab(u) == CASE u = "A/x" -> "A" [] u = "A/y" -> "A" [] u = "B/x" -> "B" [] u = "B/y" -> "B" [] u = "M/x" -> "M" [] u = "M/y" -> "M"
+              [] u = "A_p/x" -> "A_p"    \* host A's name on another port: another host (url.Host includes the port)
+              [] OTHER -> "none"
 P == INSTANCE Provenance
 H == [u \in UrlSet |-> HostTab(u)]
 Hosts == {HostTab(u) : u \in UrlSet}
